@@ -222,8 +222,10 @@ impl TokenType {
             | Int(_) | Ident(_) | Hex(_) => 1,
             // a comment may end at the end of the text instead of a line break
             Comment(_) => 1,
+            // a lone `'` at the end of the text becomes a char literal when text follows
+            Unknown(_) => 1,
             LParen | RParen | LBracket | RBracket | LCurly | RCurly | Eq | Neq | Le | Ge
-            | Assign | Comma | Semic | Plus | Minus | Times | Unknown(_) | Eof => 0,
+            | Assign | Comma | Semic | Plus | Minus | Times | Eof => 0,
             Char(_) => {
                 1 // this is a worst case look ahead.
             }
